@@ -23,6 +23,10 @@ Sub-checks
           acknowledgement is delayed longer than the time-out, nothing is lost);
           thorough adds one more order-preserving delay on top of every jump
           index for two of the cases (timer_sched).
+  timer_write : windows 1..3 with a backlog of window+2 segments; clock jump before
+          message k (every k that makes the sender poll), then one more write of
+          {1, mps} octets by either side before every later message index, i.e.
+          an application write at every moment of the poll cycle.
 
 Oracle (reference = the list of SDUs written + the frames on the wire):
   sink SDUs == written SDUs per direction; ERTM: TxSeq(n+1) = TxSeq(n)+1 mod 64,
@@ -87,6 +91,7 @@ def sym_size(sym, rx):
         'mps': mps,
         'mps+1': mps + 1,
         '3mps': 3 * mps,
+        'win+2 segs': (rx['win'] + 2) * mps,  # a backlog two segments larger than the window
         '65mps+1': 65 * mps + 1,
         'mtu-1': mtu - 1,
         'mtu': mtu,
@@ -164,7 +169,7 @@ def install_taps(w, mon, counter):
 
 
 def case_defaults(p):
-    q = {'link': 'classic', 'echo': False, 'pace': 'burst', 'jump': None, 'explore': None, 'seed': 0, 'sdus': [[], []]}
+    q = {'link': 'classic', 'echo': False, 'pace': 'burst', 'jump': None, 'inject': None, 'explore': None, 'seed': 0, 'sdus': [[], []]}
     q.update(p)
     return q
 
@@ -283,7 +288,8 @@ def run_case(p, prefix=None, fp=None):
             c.sink = make_sink(0)
             s.sink = make_sink(1)
             jump = p['jump']
-            state = {'msgs': 0, 'jumped': False}
+            inject = p['inject']  # [message index, side, symbolic size]: one more application write at that moment
+            state = {'msgs': 0, 'jumped': False, 'injected': False}
             prev = loop.on_step
 
             def on_step(handle):
@@ -293,6 +299,15 @@ def run_case(p, prefix=None, fp=None):
                     if jump is not None and not state['jumped'] and state['msgs'] == jump[0]:
                         state['jumped'] = True
                         loop._vtime += jump[1]
+                    if inject is not None and not state['injected'] and state['msgs'] == inject[0]:
+                        state['injected'] = True
+                        d = inject[1]
+                        data = sdu_bytes(p['seed'], d, 100, sym_size(inject[2], p['spec'][1 - d]))
+                        try:
+                            chans[d].write(data)
+                            written[d].append(data)
+                        except Exception as e:  # noqa
+                            write_errors.append((d, 100, repr(e)))
                     state['msgs'] += 1
 
             loop.on_step = on_step
@@ -322,6 +337,8 @@ def run_case(p, prefix=None, fp=None):
                         loop.run_quiescent(horizon=horizon, allow_timers=True, max_steps=400000)
                 if jump is not None and not state['jumped']:
                     info['jump_unused'] = True
+                if inject is not None and not state['injected']:
+                    info['inject_unused'] = True
             except StepBudgetExceeded:
                 viol.append(('data_livelock', {'modes': mode_tag(p)}, f'data phase did not quiesce in 400000 loop steps: {mon.log[-8:]}'))
             sched.active = False
@@ -634,6 +651,35 @@ def w_timer(arg):
     return st
 
 
+def poll_cycle_cases():
+    """ERTM, windows 1..3, one SDU of window+2 segments from the client (a backlog that outlasts the window)."""
+    return [{'spec': [spec('E', mps=23, win=w), spec('E', mps=23, win=w)], 'sdus': [['win+2 segs'], []]} for w in WINS]
+
+
+def w_timer_write(arg):
+    """Clock jump past the retransmission time-out before message k (kept only when it starts a poll cycle: the sender
+    polls), then one more application write of {1, mps} octets by either side before every later message index."""
+    p, k, seed = arg
+    st = core.Stats('timer_write')
+    q = dict(p, seed=seed, jump=[k, RTO + 0.001])
+    base = run_case(q)
+    if base['info'].get('jump_unused') or not base['info'].get('polls'):
+        st.count('jump_indices_without_poll')
+        return st
+    st.count('jump_indices_with_poll')
+    n = base['info'].get('msgs', 0)
+    for j in range(k + 1, n + 1):
+        for side in (0, 1):
+            for sym in ('1', 'mps'):
+                r = dict(q, inject=[j, side, sym])
+                res = run_case(r)
+                if res['info'].get('inject_unused'):
+                    continue
+                record(st, r, res, 'timer_write')
+                st.add('timer_write_outcomes', core.digest(res['obs']))
+    return st
+
+
 SCHED_CASES = [
     # (label, params)
     ('e_w1', {'spec': [spec('E', mps=23, win=1), spec('E', mps=23, win=1)], 'sdus': [['mps+1'], ['mps+1']]}),
@@ -714,6 +760,13 @@ def run(ctx: core.Context) -> int:
         for r in core.pmap(w_timer, [(p, seed) for p in tc], ctx.jobs):
             ctx.sub('timer').merge(r)
         ctx.log('timer:', ctx.sub('timer').summary())
+        items = []
+        for p in poll_cycle_cases():
+            n = run_case(dict(p, seed=seed))['info'].get('msgs', 0)
+            items += [(p, k, seed) for k in range(0, n + 1)]
+        for r in core.pmap(w_timer_write, items, ctx.jobs):
+            ctx.sub('timer_write').merge(r)
+        ctx.log('timer_write:', ctx.sub('timer_write').summary())
         if not quick:
             # time-out at message k combined with one order-preserving delay anywhere in the data phase
             st = ctx.sub('timer_sched')
@@ -739,7 +792,8 @@ def run(ctx: core.Context) -> int:
             'ways, echo sink, reverse only}; Basic likewise over {1, 0, 47, 48, mtu-1, mtu}; distinct = the case parameters. '
             'sched: 5 data cases x all delays with <= d deviations, distinct = (prefix, choice fingerprints). timer: 7 ERTM cases x '
             'clock jump past the retransmission time-out before every message index (thorough: 2 of them additionally x all delays '
-            'with <= 1 deviation for every jump index).'
+            'with <= 1 deviation for every jump index). timer_write: windows 1..3 x backlog of window+2 segments x every jump index that '
+            'makes the sender poll x one extra write of {1, mps} octets by either side before every later message index.'
         ),
         assumptions=[
             'both ends are bumble; a peer that polls (P=1) or rejects (REJ/SREJ) is never produced by bumble and so never met',
